@@ -46,7 +46,7 @@ def cases(tier):
         # ("diagk2": diag(1, 1/4, 1) at |t| = 3*theta = 7.5 > 2*pi -- a non-identity metric over more than a period)
         # ("diaghalf": diag(4, 1, 4), frequencies 1/2, 1, 1/2, time unit 2*theta: |t| = 2*2*theta = 10 > 2*pi with a
         #  frequency that is not an integer)
-        for metric, js in (("identity", (1, -2, 3)), ("diagk", (1, -1)), ("rotk", (1, -1)), ("diagk2", (3, -3)), ("diaghalf", (2, -1))):
+        for metric, js in (("identity", (1, -2, 3)), ("diagk", (1, -1)), ("rotk", (1, -1)), ("diagk2", (3, -3)), ("diaghalf", (2, -1)), ("blockk", (1, -1))):
             for j in js:
                 out.append(dict(sys="Gaussian", metric=metric, curved=True, st=si, t=j, h1=(j == 1), t1=t1s[(si + j) % 2]))
         out.append(dict(sys="GaussianConstrained", metric="diagk", curved=True, st=si, t=1, h1=True, t1="1/2"))
@@ -109,6 +109,12 @@ def build_system(kind, metric_name, curved, marray, with_aux=False):
         metric = None
     elif metric_name in ("diag", "diagk", "diagk2", "diaghalf"):
         metric = np.diag(marray).copy()
+        if np.all(metric == np.round(metric)):
+            metric = metric.astype(np.int64)      # an integer-valued diagonal metric given with an integer dtype
+    elif metric_name == "blockk":
+        import mici.matrices as MM
+        metric = MM.PositiveDefiniteBlockDiagonalMatrix((MM.PositiveDiagonalMatrix(np.array([marray[0, 0]])),
+                                                         MM.DensePositiveDefiniteMatrix(marray[1:, 1:].copy())))
     else:
         metric = marray.copy()
     kw = dict(metric=metric, grad_neg_log_dens=model.grad_neg_log_dens)
@@ -148,6 +154,8 @@ def check_against_real(recs):
         histories = [("built", False), ("reassigned", True)]
         if metric in ("dense", "rotk"):
             histories.append(("inverse-of-used", False))
+        if metric == "blockk":
+            histories = histories[:1]
         for hi, (how, with_aux) in enumerate(histories):
             model, system = build_system(kind, metric if how != "reassigned" else ("diag" if metric != "diag" else "dense"), curved,
                                          marray if how != "reassigned" else (np.diag([1.5, 0.7, 2.0]) if metric != "diag" else
